@@ -47,7 +47,11 @@ def verify(repo, con, schema, callee_contracts=(), loop_specs=None, spec_funcs=N
             if case is not None:
                 c2 = copy.copy(con)
                 c2.requires = list(con.requires) + [case]
-            eng.verify_function(c2)
+            try:
+                eng.verify_function(c2)
+            except Unsupported as e:
+                # the obligations generated before the unsupported construct was met are still obligations
+                rep.error = str(e)
             for ob in eng.obligations:
                 ob.name = ("%s[%s]" % (ob.name, config) if config else ob.name) + ("{case%d}" % ci if case is not None else "")
             obligations.extend(eng.obligations)
@@ -97,7 +101,7 @@ def verify(repo, con, schema, callee_contracts=(), loop_specs=None, spec_funcs=N
 
 def finish_reports(reps):
     """discharge the obligations of many reports in one batch (keeps all cores busy)"""
-    todo = [r for r in reps if r.error is None and getattr(r, "pending", None) is not None]
+    todo = [r for r in reps if getattr(r, "pending", None) is not None]
     if not todo:
         return
     allobs, owners = [], []
@@ -106,7 +110,7 @@ def finish_reports(reps):
             allobs.append(ob)
             owners.append(r)
     tmo = max(r.pending[2] for r in todo)
-    results = discharge.discharge(allobs, timeout_ms=tmo, tactic=todo[0].pending[3])
+    results = discharge.discharge(allobs, timeout_ms=tmo, tactic=todo[0].pending[3], use_cvc5=False)
     for r in todo:
         r.results = []
     for res, owner in zip(results, owners):
